@@ -21,6 +21,8 @@ import (
 	"strconv"
 	"strings"
 	"time"
+	"unicode"
+	"unicode/utf8"
 )
 
 func Parse(query string) (Query, error) {
@@ -30,7 +32,7 @@ func Parse(query string) (Query, error) {
 	}
 
 	trimmed = strings.TrimSuffix(trimmed, ";")
-	lower := strings.ToLower(trimmed)
+	lower := lowerSameLength(trimmed)
 	fields := strings.Fields(lower)
 	if len(fields) == 0 {
 		return Query{}, fmt.Errorf("empty query")
@@ -48,6 +50,26 @@ func Parse(query string) (Query, error) {
 	default:
 		return Query{Type: QueryUnknown}, fmt.Errorf("unsupported statement")
 	}
+}
+
+// lowerSameLength lower-cases s without changing its byte length: a rune whose
+// lower-case form has a different UTF-8 length (for example U+023A, U+0130,
+// U+212A) and every invalid byte is kept as it is. The parser locates clauses in
+// the lower-cased text and slices the original text with those offsets, so the
+// two must have identical byte offsets.
+func lowerSameLength(s string) string {
+	var b strings.Builder
+	b.Grow(len(s))
+	for i := 0; i < len(s); {
+		r, size := utf8.DecodeRuneInString(s[i:])
+		if lr := unicode.ToLower(r); (r != utf8.RuneError || size > 1) && utf8.RuneLen(lr) == size {
+			b.WriteRune(lr)
+		} else {
+			b.WriteString(s[i : i+size])
+		}
+		i += size
+	}
+	return b.String()
 }
 
 func parseShow(fields []string) (Query, error) {
